@@ -1127,4 +1127,246 @@ theorem eligible_eq (c : Cfg) (path : List Bytes) (i : Nat) (m : MaskCfg) (hm : 
     simp only [Cfg.hasGlobalProcess, hg, Bool.true_and] at hgp
     simp [hm0.1, hm0.2, hgi, hgp]
 
+
+/-! ### traverseTree (repaired) = the spec's walk over the event -/
+
+/-- traversal state after the masks `ap` applied -/
+def addAp (st : St) (ap : List (Nat × MaskCfg)) : St :=
+  { effs := st.effs ++ marks ap, counts := bumps st.counts ap, applied := st.applied || !ap.isEmpty }
+
+theorem addAp_nil (st : St) : addAp st [] = st := by
+  cases st; simp [addAp, marks, bumps]
+
+theorem addAp_append (st : St) (a b : List (Nat × MaskCfg)) : addAp (addAp st a) b = addAp st (a ++ b) := by
+  have : (!(a ++ b).isEmpty) = (!a.isEmpty || !b.isEmpty) := by
+    cases a <;> cases b <;> rfl
+  simp only [addAp, marks, bumps, List.filterMap_append, List.foldl_append, List.append_assoc, this,
+    Bool.or_assoc]
+
+theorem leafStep_congr {el1 el2 : Nat → MaskCfg → Bool} (re : Oracle) (value : Bytes) (i : Nat) (m : MaskCfg)
+    (s : LeafSt) (h : el1 i m = el2 i m) : leafStep el1 re value i m s = leafStep el2 re value i m s := by
+  unfold leafStep; rw [h]
+
+theorem leafLoop_congr {el1 el2 : Nat → MaskCfg → Bool} (re : Oracle) (value : Bytes) :
+    ∀ (ms : List MaskCfg) (i : Nat) (s : LeafSt), (∀ j m, ms[j]? = some m → el1 (i + j) m = el2 (i + j) m) →
+    leafLoop el1 re value i ms s = leafLoop el2 re value i ms s
+  | [], _, _, _ => rfl
+  | m :: ms, i, s, h => by
+    unfold leafLoop
+    rw [leafStep_congr re value i m s (by simpa using h 0 m rfl)]
+    cases leafStep el2 re value i m s with
+    | none => rfl
+    | some s' =>
+      exact leafLoop_congr re value ms (i + 1) s' (fun j m' hj => by
+        have := h (j + 1) m' (by simpa using hj)
+        rw [show i + (j + 1) = i + 1 + j by omega] at this
+        exact this)
+
+/-- processMask at the node for `path` = the spec's leaf with the documented list semantics -/
+theorem processMask_at (c : Cfg) (re : Oracle) (hok : LoopOk re 0 c.masks) (v : Bytes) (path : List Bytes) (st : St) :
+    processMask fixedImpl c re v (fmAt c path) st =
+      match specLeaf (fun _ m => pathEligible c m path) c.masks re v with
+      | none => .error .oracleMiss
+      | some (nv, ap) => .ok (nv, addAp st ap) := by
+  rw [processMask_eq c re v (fmAt c path) st hok]
+  have : specLeaf (eligible c (fmAt c path)) c.masks re v = specLeaf (fun _ m => pathEligible c m path) c.masks re v := by
+    unfold specLeaf
+    rw [leafLoop_congr re v c.masks 0 _ (fun j m hj => by simpa using eligible_eq c path j m hj)]
+  rw [this]
+  rfl
+
+/-- below `path` no mask is left by the lists -/
+def Dead (c : Cfg) (path : List Bytes) : Prop :=
+  ∀ q m, m ∈ c.masks → path.isPrefixOf q = true → pathEligible c m q = false
+
+theorem isPrefixOf_snoc_trans {p q : List Bytes} {k : Bytes} (h : (p ++ [k]).isPrefixOf q = true) :
+    p.isPrefixOf q = true := by
+  rw [List.isPrefixOf_iff_prefix] at h ⊢
+  exact (List.prefix_append p [k]).trans h
+
+theorem Dead.snoc {c : Cfg} {path : List Bytes} (h : Dead c path) (k : Bytes) : Dead c (path ++ [k]) :=
+  fun q m hm hp => h q m hm (isPrefixOf_snoc_trans hp)
+
+theorem leafLoop_dead {el : Nat → MaskCfg → Bool} (re : Oracle) (value : Bytes) :
+    ∀ (ms : List MaskCfg) (i : Nat) (s : LeafSt), (∀ j m, ms[j]? = some m → el (i + j) m = false) →
+    leafLoop el re value i ms s = some s
+  | [], _, _, _ => rfl
+  | m :: ms, i, s, h => by
+    have h0 : el i m = false := by simpa using h 0 m rfl
+    unfold leafLoop leafStep
+    simp only [h0, Bool.not_false, ↓reduceIte]
+    exact leafLoop_dead re value ms (i + 1) s (fun j m' hj => by
+      have := h (j + 1) m' (by simpa using hj)
+      rw [show i + (j + 1) = i + 1 + j by omega] at this
+      exact this)
+
+theorem specLeaf_dead (c : Cfg) (re : Oracle) (path : List Bytes) (v : Bytes) (h : Dead c path) :
+    specLeaf (fun _ m => pathEligible c m path) c.masks re v = some (none, []) := by
+  unfold specLeaf
+  by_cases hv : v.isEmpty
+  · simp [hv]
+  · simp only [hv, Bool.false_eq_true, ↓reduceIte]
+    rw [leafLoop_dead re v c.masks 0 _ (fun j m hj => h path m (List.mem_of_getElem? hj) (by simp))]
+    rfl
+
+mutual
+  theorem specTree_dead (c : Cfg) (re : Oracle) : ∀ (t : JTree) (path : List Bytes), Dead c path →
+      specTree c re path t = some (t, [])
+    | .str s, path, h => by simp [specTree, specLeaf_dead c re path s h]
+    | .num s, path, h => by simp [specTree, specLeaf_dead c re path s h]
+    | .obj kvs, path, h => by simp [specTree, specKVs_dead c re kvs path h]
+    | .arr xs, path, h => by simp [specTree, specArr_dead c re xs 0 path h]
+    | .null, _, _ => by simp [specTree]
+    | .bool _, _, _ => by simp [specTree]
+  theorem specKVs_dead (c : Cfg) (re : Oracle) : ∀ (kvs : List (Bytes × JTree)) (path : List Bytes), Dead c path →
+      specKVs c re path kvs = some (kvs, [])
+    | [], _, _ => by simp [specKVs]
+    | (k, v) :: rest, path, h => by
+      simp [specKVs, specTree_dead c re v (path ++ [k]) (h.snoc k), specKVs_dead c re rest path h]
+  theorem specArr_dead (c : Cfg) (re : Oracle) : ∀ (xs : List JTree) (i : Nat) (path : List Bytes), Dead c path →
+      specArr c re path i xs = some (xs, [])
+    | [], _, _, _ => by simp [specArr]
+    | x :: rest, i, path, h => by
+      simp [specArr, specTree_dead c re x (path ++ [itoa i]) (h.snoc _), specArr_dead c re rest (i + 1) path h]
+end
+
+
+theorem fmAt_snoc (c : Cfg) (path : List Bytes) (k : Bytes) :
+    fmAt c (path ++ [k]) = (fmAt c path).map (fun n => fmStep n k) := by
+  unfold fmAt
+  cases c.fmRoot <;> simp [List.foldl_append]
+
+theorem elemNext_eq (c : Cfg) (path : List Bytes) (i : Nat) :
+    elemNext fixedImpl (fmAt c path) i = fmAt c (path ++ [itoa i]) := by
+  rw [fmAt_snoc]
+  unfold elemNext fmStep
+  cases fmAt c path with
+  | none => rfl
+  | some n =>
+    by_cases h : n.hasChildren <;> simp [h, fixedImpl]
+
+theorem isPrefixOf_trans {a b q : List Bytes} (h1 : a.isPrefixOf b = true) (h2 : b.isPrefixOf q = true) :
+    a.isPrefixOf q = true := by
+  rw [List.isPrefixOf_iff_prefix] at h1 h2 ⊢
+  exact h1.trans h2
+
+theorem covers_mono {ps : List (List Bytes)} {p q : List Bytes} (h : covers ps p = true)
+    (hpq : p.isPrefixOf q = true) : covers ps q = true := by
+  unfold covers at h ⊢
+  rw [List.any_eq_true] at h ⊢
+  obtain ⟨l, ml, hl⟩ := h
+  exact ⟨l, ml, isPrefixOf_trans hl hpq⟩
+
+/-- the `IsField` case at the node for `path`: either the walk goes on to the child's node, or
+    the field is skipped and then nothing below it is left to any mask -/
+theorem fieldNext_cases (c : Cfg) (path : List Bytes) (k : Bytes) :
+    fieldNext fixedImpl c (fmAt c path) k = some (fmAt c (path ++ [k])) ∨
+    (fieldNext fixedImpl c (fmAt c path) k = none ∧ Dead c (path ++ [k])) := by
+  rw [fmAt_snoc]
+  cases hfm : fmAt c path with
+  | none => left; rfl
+  | some n =>
+    unfold fieldNext fmStep
+    by_cases hc : n.hasChildren
+    · simp only [hc, Bool.not_true, Bool.false_eq_true, ↓reduceIte, fixedImpl, Option.map_some]
+      by_cases hskip : (n.childExists k && (FMNode.residual true k n).has Tag.globalIgnore && !c.hasMaskSpecific)
+      · right
+        simp only [hskip, ↓reduceIte, true_and]
+        simp only [Bool.and_eq_true, Bool.not_eq_true'] at hskip
+        obtain ⟨⟨_, hgi⟩, hms⟩ := hskip
+        have hn' : fmAt c (path ++ [k]) = some (FMNode.residual true k n) := by
+          rw [fmAt_snoc, hfm]; simp [fmStep, hc]
+        rw [has_fmAt c _ _ hn' .globalIgnore, any_global _ (Or.inl rfl)] at hgi
+        simp only [BEq.rfl, Bool.and_true, Bool.false_or, tag_gp_gi, Bool.and_false, Bool.false_and, Bool.or_false,
+          Bool.and_eq_true] at hgi
+        intro q m hm hp
+        unfold Cfg.hasMaskSpecific at hms
+        have hm0 := (List.any_eq_false.mp hms) m hm
+        simp only [Bool.or_eq_true, not_or, Bool.not_eq_true] at hm0
+        have hg1 : (c.gkind == 1) = true := by
+          have := hgi.1; unfold Cfg.hasGlobalIgnore at this; simp only [Bool.and_eq_true] at this; exact this.2
+        unfold pathEligible
+        simp [hm0.1, hm0.2, hg1, covers_mono hgi.2 hp]
+      · left
+        simp only [hskip, Bool.false_eq_true, ↓reduceIte]
+    · left
+      have hc' : n.hasChildren = false := by simpa using hc
+      simp [hc']
+
+
+/-- result of the model's traversal expected from the spec's -/
+def expect {α} (st : St) : Option (α × List (Nat × MaskCfg)) → M (α × St)
+  | none => .error .oracleMiss
+  | some (a, ap) => .ok (a, addAp st ap)
+
+mutual
+  /-- **traverseTree (repaired) = the spec's walk**, node by node: same new leaves, same marks and
+      counters, the process / ignore lists meaning "a listed path covers its subtree" -/
+  theorem trav_eq (c : Cfg) (re : Oracle) (hok : LoopOk re 0 c.masks) :
+      ∀ (t : JTree) (path : List Bytes) (st : St),
+      trav fixedImpl c re t (fmAt c path) st = expect st (specTree c re path t)
+    | .str s, path, st => by
+      simp only [trav, specTree, processMask_at c re hok s path st, bind, Except.bind]
+      cases specLeaf (fun _ m => pathEligible c m path) c.masks re s with
+      | none => rfl
+      | some r => obtain ⟨nv, ap⟩ := r; cases nv <;> rfl
+    | .num s, path, st => by
+      simp only [trav, specTree, processMask_at c re hok s path st, bind, Except.bind]
+      cases specLeaf (fun _ m => pathEligible c m path) c.masks re s with
+      | none => rfl
+      | some r => obtain ⟨nv, ap⟩ := r; cases nv <;> rfl
+    | .obj kvs, path, st => by
+      simp only [trav, specTree, travKVs_eq c re hok kvs path st, bind, Except.bind]
+      cases specKVs c re path kvs with
+      | none => rfl
+      | some r => rfl
+    | .arr xs, path, st => by
+      simp only [trav, specTree, travArr_eq c re hok xs 0 path st, bind, Except.bind]
+      cases specArr c re path 0 xs with
+      | none => rfl
+      | some r => rfl
+    | .null, _, st => by simp [trav, specTree, expect, addAp_nil, pure, Except.pure]
+    | .bool _, _, st => by simp [trav, specTree, expect, addAp_nil, pure, Except.pure]
+  theorem travKVs_eq (c : Cfg) (re : Oracle) (hok : LoopOk re 0 c.masks) :
+      ∀ (kvs : List (Bytes × JTree)) (path : List Bytes) (st : St),
+      travKVs fixedImpl c re kvs (fmAt c path) st = expect st (specKVs c re path kvs)
+    | [], _, st => by simp [travKVs, specKVs, expect, addAp_nil, pure, Except.pure]
+    | (k, v) :: rest, path, st => by
+      rcases fieldNext_cases c path k with hn | ⟨hn, hdead⟩
+      · simp only [travKVs, hn, trav_eq c re hok v (path ++ [k]) st, specKVs, bind, Except.bind]
+        cases specTree c re (path ++ [k]) v with
+        | none => simp [expect]
+        | some r1 =>
+          obtain ⟨v', a1⟩ := r1
+          simp only [expect, travKVs_eq c re hok rest path (addAp st a1)]
+          cases specKVs c re path rest with
+          | none => rfl
+          | some r2 =>
+            obtain ⟨rest', a2⟩ := r2
+            simp [expect, addAp_append, pure, Except.pure]
+      · simp only [travKVs, hn, specKVs, specTree_dead c re v (path ++ [k]) hdead, bind, Except.bind,
+          travKVs_eq c re hok rest path st]
+        cases specKVs c re path rest with
+        | none => rfl
+        | some r2 =>
+          obtain ⟨rest', a2⟩ := r2
+          simp [expect, pure, Except.pure]
+  theorem travArr_eq (c : Cfg) (re : Oracle) (hok : LoopOk re 0 c.masks) :
+      ∀ (xs : List JTree) (i : Nat) (path : List Bytes) (st : St),
+      travArr fixedImpl c re xs i (fmAt c path) st = expect st (specArr c re path i xs)
+    | [], _, _, st => by simp [travArr, specArr, expect, addAp_nil, pure, Except.pure]
+    | x :: rest, i, path, st => by
+      simp only [travArr, elemNext_eq, trav_eq c re hok x (path ++ [itoa i]) st, specArr, bind, Except.bind]
+      cases specTree c re (path ++ [itoa i]) x with
+      | none => simp [expect]
+      | some r1 =>
+        obtain ⟨x', a1⟩ := r1
+        simp only [expect, travArr_eq c re hok rest (i + 1) path (addAp st a1)]
+        cases specArr c re path (i + 1) rest with
+        | none => rfl
+        | some r2 =>
+          obtain ⟨rest', a2⟩ := r2
+          simp [expect, addAp_append, pure, Except.pure]
+end
+
 end FileD.MaskLemmas
